@@ -64,10 +64,15 @@ use std::{
     ops::{Deref, DerefMut},
     sync::{
         atomic::{AtomicUsize, Ordering},
-        Arc, Mutex, Weak,
+        Arc, Weak,
     },
     time::Duration,
 };
+
+#[cfg(deadpool_verif)]
+use crate::verif::Mutex;
+#[cfg(not(deadpool_verif))]
+use std::sync::Mutex;
 
 #[cfg(not(target_arch = "wasm32"))]
 use std::time::Instant;
@@ -644,7 +649,7 @@ impl<M: Manager, W: From<Object<M>>> Pool<M, W> {
     #[doc(hidden)]
     #[must_use]
     pub fn verif_snapshot(&self) -> crate::verif::ManagedSnapshot {
-        let slots = self.inner.slots.lock().unwrap();
+        let slots = self.inner.slots.lock_quietly().unwrap();
         crate::verif::ManagedSnapshot {
             permits: self.inner.semaphore.available_permits(),
             size: slots.size,
@@ -672,7 +677,7 @@ impl<M: Manager, W: From<Object<M>>> Pool<M, W> {
     #[cfg(deadpool_verif)]
     #[doc(hidden)]
     pub fn verif_idle(&self, mut f: impl FnMut(&M::Type, &Metrics)) {
-        let slots = self.inner.slots.lock().unwrap();
+        let slots = self.inner.slots.lock_quietly().unwrap();
         for inner in slots.vec.iter() {
             f(&inner.obj, &inner.metrics);
         }
